@@ -452,3 +452,43 @@ pub fn gen_c03(out: &mut impl Write, seed: u64, thorough: bool) {
         }
     }
 }
+
+/// C15, streaming writers: the digest / MAC adapters of every back end receive the PAE piecewise; tokens whose message,
+/// footer and assertion lengths straddle the block sizes of the underlying primitives (16, 64, 128) and typical buffer sizes are
+/// sealed with an injected nonce (byte-compared with the model = spec PAE + MAC over the Vec form), built by the specification
+/// instance and offered to the implementation, and compared between sibling back ends
+pub fn gen_c15w(out: &mut impl Write, seed: u64, thorough: bool) {
+    let mut r = Rng::new(seed ^ 0xC15F);
+    let mlens: Vec<usize> = if thorough { vec![0, 1, 15, 16, 17, 63, 64, 65, 111, 112, 113, 127, 128, 129, 255, 256, 257, 383, 384, 385, 1000, 4096, 4097] } else { vec![0, 1, 64, 127, 128, 129, 256, 1000] };
+    let flens: Vec<usize> = if thorough { vec![0, 1, 63, 64, 127, 128, 129, 256, 300, 1000] } else { vec![0, 1, 127, 128, 300] };
+    for be in ALL_BE {
+        let nl = local_nonce_len(be);
+        let sk = gen_secret(be);
+        let pk = public_of(be, &sk);
+        let mut i = 0usize;
+        for &ml in &mlens {
+            for &fl in &flens {
+                i += 1;
+                if !thorough && i % 2 == 0 && ml != 128 && fl != 128 { continue; }
+                let key = r.pattern(32);
+                let msg = r.pattern(ml);
+                let f = r.bytes(fl);
+                let al = if be.has_aad() { *r.pick(&[0usize, 1, 127, 128, 129, 300]) } else { 0 };
+                let a = r.bytes(al);
+                let n = r.bytes(nl);
+                writeln!(out, "loc.seal {} {} {} {} {} {}", be.name(), hex(&key), hex(&n), hex(&msg), hex(&f), hex(&a)).unwrap();
+                writeln!(out, "m.spec.loc.seal {} {} {} {} {} {} | loc.open {} {} $ {} want=ok:{}", be.name(), hex(&key), hex(&n), hex(&msg), hex(&f), hex(&a), be.name(), hex(&key), hex(&a), hex(&msg)).unwrap();
+                if be == Be::V3 || be == Be::V4 {
+                    writeln!(out, "o.sib {} {} {} {} {} {}", be.version(), hex(&key), hex(&n), hex(&msg), hex(&f), hex(&a)).unwrap();
+                }
+                if (ml <= 1000 && fl <= 300 && be != Be::V1) || (ml == 128 && fl <= 128) {
+                    let rnd = r.bytes(48);
+                    writeln!(out, "m.pub.sign {} {} {} {} {} {} | pub.open {} {} $ {} want=ok:{}", be.name(), hex(&sk), hex(&msg), hex(&f), hex(&a), hex(&rnd), be.name(), hex(&pk), hex(&a), hex(&msg)).unwrap();
+                    if let Some(tok) = sign_own(be, &sk, &msg, &f, &a) {
+                        emit_popen(out, be, &pk, &tok, &a, &format!("ok:{}", hex(&msg)));
+                    }
+                }
+            }
+        }
+    }
+}
